@@ -389,8 +389,73 @@ def close_cases():
         "np": st.lists(st.integers(0, 3), max_size=8)})
 
 
+# ---- real sockets: a thread blocked in a request must be released when another thread closes the connection locally ----
+def check_real_close(case, rec):
+    import socket
+    import threading
+    import time
+    import rpyc
+    from rpyc.core.stream import SocketStream
+    from rpyc.core.channel import Channel
+    rec.case(case, True, ["real-close:%s/%s" % (case["transport"], case["blocked_in"])])
+    if case["transport"] == "socketpair":
+        a, b = socket.socketpair()
+    else:
+        lst = socket.socket()
+        lst.bind(("127.0.0.1", 0))
+        lst.listen(1)
+        a = socket.create_connection(lst.getsockname())
+        b, _ = lst.accept()
+        lst.close()
+    disc = []
+
+    class Svc(rpyc.Service):
+        def on_disconnect(self, conn):
+            disc.append(1)
+    conn = Svc()._connect(Channel(SocketStream(a)), {"sync_request_timeout": None})
+    out = {}
+
+    def blocked():
+        try:
+            if case["blocked_in"] == "request":
+                conn.sync_request(rpyc.core.consts.HANDLE_PING, "never answered")      # the peer stays silent
+            else:
+                conn.serve(None)
+            out["r"] = "returned"
+        except EOFError:
+            out["r"] = "EOFError"
+        except Exception as ex:
+            out["r"] = type(ex).__name__
+    t = threading.Thread(target=blocked)
+    t.daemon = True
+    t.start()
+    time.sleep(0.2)                    # the thread now sits in poll() on the socket
+    t0 = time.time()
+    conn.close()
+    t.join(5.0)
+    fails = []
+    if t.is_alive():
+        fails.append(Failure("hang", "thread blocked in a %s still hanging 5 s after a local close() (silent peer, real socket)" % case["blocked_in"],
+                             case, None))
+        try:
+            b.close()                 # let it go
+        except Exception:
+            pass
+        t.join(2.0)
+    elif out.get("r") != "EOFError":
+        fails.append(Failure("request-failed-otherwise", str(out.get("r")), case, out.get("r"), "EOFError"))
+    if len(disc) != 1:
+        fails.append(Failure("hook-count", "closed side ran its disconnect hook %d times" % len(disc), case))
+    for s in (a, b):
+        try:
+            s.close()
+        except Exception:
+            pass
+    return fails
+
+
 def plan(tier, scale):
-    out = []
+    out = [{"part": "real-close", "transport": tr, "blocked_in": bl} for tr in ("socketpair", "tcp") for bl in ("request", "serve")]
     for i, wl in enumerate(WORKLOADS):
         out.append({"part": "faults", "workload": wl, "stride": 1 if tier == "thorough" else 5, "offset": i % 5})
     n = 120 if tier == "quick" else 6000
@@ -399,6 +464,14 @@ def plan(tier, scale):
 
 
 def run_shard(desc, seed, rec, tier):
+    if desc["part"] == "real-close":
+        case = dict(desc)
+        fails = check_real_close(case, rec)
+        if fails and fails[0].clause == "hang":
+            fails = check_real_close(case, rec)        # real time: confirm once more before it counts
+        for f in rec.triage(fails):
+            rec.violation(f)
+        return
     if desc["part"] == "faults":
         plans, clean = fault_plans(desc["workload"])
         if plans is None:
@@ -428,4 +501,6 @@ def run_shard(desc, seed, rec, tier):
 
 
 def replay(case, rec):
+    if case.get("part") == "real-close":
+        return check_real_close(case, rec)
     return check_plan(case, rec)
